@@ -654,9 +654,41 @@ def install(extra=None):
       _saved.setdefault((m, name), mods[m].__dict__.get(name))
       setattr(mods[m], name, val)
   npproxy._Flag.on = True
+  patch_sklearn_astype()
   MODS.clear()
   MODS.update(mods)
   return mods
+
+
+_SK_PATCHED = []
+
+
+def patch_sklearn_astype():
+  """roc_curve ends with xp.astype(thresholds, float64): on symbolic thresholds that cast is the
+  identity (the entries already denote reals).  Harness-side patch of scikit-learn's array-API shim."""
+  import importlib
+  for modname in ('sklearn.externals.array_api_compat.numpy._aliases', 'sklearn.externals.array_api_compat.numpy'):
+    try:
+      mod = importlib.import_module(modname)
+    except ImportError:
+      continue
+    real = getattr(mod, 'astype', None)
+    if real is None or getattr(real, '_symx', False):
+      continue
+
+    def astype(x, dtype, /, *, copy=True, _real=real, **k):
+      if isinstance(x, _np.ndarray) and x.dtype == object and has_sym(x):
+        return wrap(x.copy() if copy else x)
+      return _real(x, dtype, copy=copy, **k)
+    astype._symx = True
+    setattr(mod, 'astype', astype)
+    _SK_PATCHED.append((mod, real))
+
+
+def unpatch_sklearn():
+  for mod, real in _SK_PATCHED:
+    setattr(mod, 'astype', real)
+  del _SK_PATCHED[:]
 
 
 def set_global(mods, m, name, val):
@@ -679,4 +711,5 @@ def uninstall():
     else:
       setattr(mod, name, val)
   _saved.clear()
+  unpatch_sklearn()
   npproxy._Flag.on = False
